@@ -52,6 +52,7 @@ pub struct VState {
     pub nops: usize,
 }
 
+#[derive(Clone, Debug, Serialize, Deserialize)]
 pub struct VelModel {
     pub max_ops: usize,
     pub monitors: bool,
@@ -96,6 +97,10 @@ fn window_sum(log: &[(u64, u64)], now: u64) -> u128 {
 impl Model for VelModel {
     type Op = Op;
     type State = VState;
+
+    fn cfg_json(&self) -> serde_json::Value {
+        serde_json::to_value(self).unwrap()
+    }
 
     fn name(&self) -> String {
         format!("nodevel(ops<={}{})", self.max_ops, if self.monitors { ",monitors" } else { "" })
@@ -261,4 +266,10 @@ pub fn explore(tier: Tier, monitors: bool, wall_s: f64) -> VelRun {
     let st = bfs(&m, &lim, &mut found);
     let models = vec![format!("{}: states={} transitions={} closed={} bounded_complete={} depth={} t={:.1}s", m.name(), st.states, st.transitions, st.closed, st.bounded_complete, st.max_depth, st.wall_s)];
     VelRun { stats: st, found, models }
+}
+
+pub fn replay_ops(v: &serde_json::Value) -> Vec<Vio> {
+    let m: VelModel = serde_json::from_value(v["cfg"].clone()).expect("nodevel cfg");
+    let ops: Vec<Op> = serde_json::from_value(v["ops"].clone()).expect("nodevel ops");
+    crate::vmc::replay(&m, &ops)
 }
